@@ -60,6 +60,9 @@ func mixedCase(salt uint64, tier string, seed uint64, i int) *c06Case {
 		return &c06Case{Mode: "ctor", Recipe: rec.New("ctor").SetT("ctor", ctorTable[i].name)}
 	}
 	r := prng.Derive(seed, salt+1000, uint64(i))
+	if i%(2*satEvery) == 2*satEvery-2 { // (ctrlRecipe has its own saturated cases)
+		return &c06Case{Mode: "switch", Recipe: gen.SaturatedSwitch(r, i/(2*satEvery))}
+	}
 	switch i % 8 {
 	case 0, 1, 2:
 		return &c06Case{Mode: "ctrl", Recipe: ctrlRecipe(salt, tier, seed, i)}
